@@ -631,6 +631,13 @@ def gen_random(rng, index):
 
 FALLBACK_FORMATS = ["%a %b %d %H:%M:%S %Y", "%A %d %B %Y", "%c"]
 INPLACE = ("iadd", "isub", "imul", "ifloordiv")
+EXERCISED_DUNDERS = {
+    "__init__", "__new__", "__add__", "__radd__", "__sub__", "__mul__",
+    "__rmul__", "__floordiv__", "__abs__", "__bool__", "__eq__", "__ne__",
+    "__lt__", "__le__", "__gt__", "__ge__", "__hash__", "__str__",
+    "__repr__", "__iter__", "__getitem__", "__iadd__", "__isub__",
+    "__imul__", "__ifloordiv__", "__init_subclass__", "__subclasshook__",
+    "__class_getitem__"}
 ADD_TRUNC_KW = [{"hour_of_day": 6}, {"minute_of_hour": 30},
                 {"day_of_month": 15}, {"day_of_week": 3}, {"day_of_year": 45},
                 {"month_of_year": 3}, {"week_of_year": 10},
@@ -1435,6 +1442,14 @@ class Sim(object):
             for attr in dir(cls):
                 if not attr.startswith("_") and attr not in known:
                     self.uncovered.append("%s.%s" % (cls.__name__, attr))
+            # ... and the operators a class defines itself: one that the
+            # table does not exercise (a new __neg__, __truediv__, ...) is a
+            # way around it
+            for klass in cls.__mro__[:-1]:
+                for attr, val in vars(klass).items():
+                    if (attr.startswith("__") and attr.endswith("__") and
+                            callable(val) and attr not in EXERCISED_DUNDERS):
+                        self.uncovered.append("%s.%s" % (cls.__name__, attr))
 
     def run(self):
         from metomi.isodatetime import data, parsers
